@@ -41,6 +41,7 @@ struct Verdict {
     bool nontrivial = false;
     std::vector<std::string> classes;
     std::string sig;             // stable signature of the failure (matched against known_findings.txt)
+    uint64_t trace_digest = 0;   // digest of everything the case made the responder transmit (cross-build differential, C02)
     void fail(const std::string &w, const std::string &s = "") { if (ok) { ok = false; why = w; sig = s; } }
     void cls(const std::string &c) { classes.push_back(c); }
 };
@@ -105,7 +106,7 @@ inline Verdict run_isolated(const RunFn &run, const Case &c) {
         close(fd[0]);
         in_isolated_child() = true;
         Verdict v = run(c);
-        std::string out = std::string(v.ok ? "1" : "0") + "\n" + (v.nontrivial ? "1" : "0") + "\n" + v.sig + "\n";
+        std::string out = std::string(v.ok ? "1" : "0") + "\n" + (v.nontrivial ? "1" : "0") + "\n" + v.sig + "\n" + std::to_string(v.trace_digest) + "\n";
         std::string why = v.why;
         for (auto &ch : why) if (ch == '\n') ch = ' ';
         out += why + "\n";
@@ -125,9 +126,9 @@ inline Verdict run_isolated(const RunFn &run, const Case &c) {
     Verdict v;
     std::vector<std::string> lines;
     { std::istringstream is(data); std::string l; while (std::getline(is, l)) lines.push_back(l); }
-    if (WIFEXITED(status) && WEXITSTATUS(status) == 0 && lines.size() >= 5) {
-        v.ok = lines[0] == "1"; v.nontrivial = lines[1] == "1"; v.sig = lines[2]; v.why = lines[3];
-        std::istringstream cs(lines[4]); std::string k;
+    if (WIFEXITED(status) && WEXITSTATUS(status) == 0 && lines.size() >= 6) {
+        v.ok = lines[0] == "1"; v.nontrivial = lines[1] == "1"; v.sig = lines[2]; v.trace_digest = strtoull(lines[3].c_str(), nullptr, 10); v.why = lines[4];
+        std::istringstream cs(lines[5]); std::string k;
         while (std::getline(cs, k, '\x1f')) if (!k.empty()) v.classes.push_back(k);
         return v;
     }
@@ -151,6 +152,8 @@ inline bool run_cases(const Args &a, Evidence &ev, const std::string &name, long
     md.id = name; md.description = name;
     bool failed_once = false, failed_isolated = false;
     long evaluated = 0;
+    FILE *digest_file = a.digests.empty() ? nullptr : fopen((a.digests + "." + name).c_str(), "w");
+    if (a.dump_index >= 0) params.maxSuccess = (int)a.dump_index + 1;
     auto result = rc::detail::checkTestable([&] {
         Case c = *gen;
         CurrentScope scope(c);
@@ -158,7 +161,12 @@ inline bool run_cases(const Args &a, Evidence &ev, const std::string &name, long
         // being evaluated the way it failed, so that shrinking sees the same behaviour
         bool iso = a.isolate && (failed_once ? failed_isolated : (a.isolate_n > 0 && evaluated % std::max<long>(1, n / a.isolate_n) == 0));
         evaluated++;
+        if (a.dump_index >= 0) {   // generation only: write the k-th generated case of this part and stop evaluating
+            if (evaluated - 1 == a.dump_index) write_file(a.out, "# differential=autoinit part=" + name + "\n" + c.to_text());
+            return;
+        }
         Verdict v = iso ? run_isolated(run, c) : run(c);
+        if (digest_file && !failed_once) fprintf(digest_file, "%016llx %016llx\n", (unsigned long long)c.digest(), (unsigned long long)v.trace_digest);
         if (!v.ok && !failed_once) failed_isolated = iso;
         if (iso && !failed_once) ev.count(name + ":evaluated-in-a-fresh-process");
         if (!v.ok && !v.sig.empty() && a.known.count(v.sig)) {   // listed known finding: excluded, counted, search goes on
@@ -175,6 +183,7 @@ inline bool run_cases(const Args &a, Evidence &ev, const std::string &name, long
             RC_FAIL(v.why);
         }
     }, md, params);
+    if (digest_file) fclose(digest_file);
     bool ok = result.template is<rc::detail::SuccessResult>();
     if (!ok) {
         rc::detail::printResultMessage(result, std::cerr);
